@@ -190,11 +190,27 @@ def enum_ob(obid: str, functions: List[str], cases: Callable[[], Iterable[Any]],
                 signal.alarm(max(1, remaining - int(time.time() - t1)))
 
     def run():
+        try:
+            return _run()
+        except core._Timeout:
+            # the obligation's time limit ended the enumeration: slowness (a loaded machine, a slow sympy call) is never a verdict - the cases that were
+            # judged all passed, the evidence says how many and that the stated domain was not exhausted
+            n = _progress["n"]
+            if n == 0:
+                raise
+            return core.bounded_pass(f"{n} cases, then stopped by the time limit ({_progress['skipped']} outside the precondition)", n, time.time() - _progress["t0"],
+                                     sample={"first_case": _progress["first"], "cases": n, "exhaustive_over_stated_domain": False, "stopped_by_time_limit": True})
+
+    _progress = {"n": 0, "skipped": 0, "first": None, "t0": time.time()}
+
+    def _run():
         t0 = time.time()
+        _progress.update(n=0, skipped=0, first=None, t0=t0)
         n = 0
         skipped = 0
         first = None
         for case in cases():
+            _progress.update(n=n, skipped=skipped, first=first)
             if time_budget and n and time.time() - t0 > time_budget:
                 break           # a sampled (non-exhaustive) family: stop drawing further cases when the time budget is used; the evidence reports how many were run
             try:
